@@ -3,6 +3,7 @@
 package main
 
 import (
+	"strings"
 	"math/big"
 	"math/rand"
 
@@ -39,6 +40,9 @@ type Gen struct {
 	nextBet  int64
 	usedBets []int64
 	pending  []Op // operations to be emitted next, in the same block (bursts)
+	lastLeader int64 // leader key after the last observed block
+	seenLeader bool
+	former   []int64 // keys that have lost the leader position
 	okTix    []Op // accepted ticket-bearing ops whose very ticket (same string: same payload, exp and key) is presented again later
 	stats    map[string]int
 }
@@ -968,6 +972,39 @@ func (g *Gen) genVote() Op {
 	if g.chance(0.03) {
 		vote = 0
 	}
+	// steer towards full turn-outs just below two thirds (3 yes / 2 no of five keys, 2 / 2 of four): every key votes, the proposal
+	// must stay undecided; a key that has not voted yet is chosen and the split kept at the edge
+	if g.chance(0.35) {
+		for _, p := range props {
+			if int64(p.Id) != pid {
+				continue
+			}
+			yes, no := 0, 0
+			voted := map[string]bool{}
+			for _, x := range p.Votes {
+				voted[x.PublicKey] = true
+				if x.Vote == 2 {
+					yes++
+				} else {
+					no++
+				}
+			}
+			for i, k := range v {
+				if !voted[g.c.Keys[k%100].PEM] && !voted[strings.TrimSpace(g.c.Keys[k%100].PEM)] {
+					vi = int64(i)
+					tk = Ticket{Signer: k, Exp: g.c.Time + int64(1+g.r.Intn(500))}
+					break
+				}
+			}
+			edge := (2*len(v)+2)/3 - 1 // yes votes that are one short of two thirds
+			if yes >= edge {
+				vote = 1
+			} else if no >= len(v)-edge {
+				vote = 2
+			}
+			g.stats["vote_steered_to_edge"]++
+		}
+	}
 	return Op{Kind: "VOTE", Signer: g.user(), Tk: tk, VoterIdx: vi, PropID: pid, Vote: vote}
 }
 
@@ -1023,6 +1060,23 @@ func (g *Gen) NextTx() Op {
 // Observe refreshes the generator's view after an executed op.
 func (g *Gen) Observe(o Op, res string) {
 	g.stats[o.Kind+":"+res]++
+	if o.Kind == "END" && g.profile != "mint" {
+		cur := int64(g.c.leaderKeyAt(committedCtx(g.c)))
+		if g.seenLeader && cur != g.lastLeader {
+			// the leader has just been replaced: the first transaction of the next block carries a fresh ticket of the replaced
+			// leader (never presented before).  It must be refused - by every replica, whatever it simulated beforehand (C06, C15).
+			g.former = append(g.former, g.lastLeader)
+			for _, m := range g.markets {
+				if !m.resolved {
+					g.pending = append(g.pending, Op{Kind: "MUPD", Signer: g.user(), Tk: Ticket{Signer: g.lastLeader, Exp: g.c.Time + 5000},
+						UID: m.uid, Start: m.start, End: m.end + 1, Status: m.status})
+					g.stats["stale_leader_ticket_after_rotation"]++
+					break
+				}
+			}
+		}
+		g.lastLeader, g.seenLeader = cur, true
+	}
 	if res != "ok" {
 		return
 	}
